@@ -372,6 +372,12 @@ pub fn run_c16(out: &mut Out, rng: &mut Rng, thorough: bool, only: Option<&str>)
         let mut short = hex_text_unchecked(v, &good, true);
         short.pop();
         payloads.push(short);
+        // strings of the right BYTE length holding multi-byte characters (at and across offset 2)
+        for with_prefix in [true, false] {
+            for p in crate::fam_codec::non_ascii_same_length(&hex_text_unchecked(v, &good, with_prefix)) {
+                payloads.push(p);
+            }
+        }
         // fields the strict parser rejects
         for _ in 0..3 {
             let mut b = rng.bytes(n);
